@@ -42,8 +42,8 @@ func (c *char) talentBreakListener(e event.StanceBreak) {
 
 func (c *char) talentAttackListener(e event.AttackEnd) {
 	if c.engine.IsCharacter(e.Attacker) && c.canAttack {
-		// If we still have alive enemies
-		if len(c.engine.Enemies()) > 0 {
+		// If we still have alive enemies and the talent is fully charged
+		if c.talentStacks >= 3 && len(c.engine.Enemies()) > 0 {
 			c.insertTalentAttack(e.Targets)
 		}
 	}
